@@ -210,13 +210,17 @@ def bulk_inputs(tier):
     for w, n in widths:
         out.append((("x" * (w - 1) + "\n") * n + "<p>tail", "-"))
         out.append((("é" * ((w - 1) // 2) + "y" * ((w - 1) % 2) + "\n") * n + "&amp;<a b='" + "q\n" * 300 + "'>", "-"))
+    # a single non-ASCII text run longer than 2^16 bytes, both byte alignments (caps / truncation of quoted tokens)
+    for pre in ("", "a"):
+        out.append((pre + "é" * 33000 + "<p>", "-"))
+        out.append((pre + "€" * 22000 + "</p>", "-"))
     out.append(("\r" * 300 + "<a>", "-"))
     out.append(("\r\n" * 300 + "</a>", "-"))
     for st in ("RawData(Rcdata)", "RawData(Rawtext)", "RawData(ScriptData)", "Plaintext", "CdataSection"):
         out.append((("x" * 15 + "\n") * 300 + "</s>z", st))
     # '&' followed by a long run that is not a reference (every character must come back), ended in every way
     alnum = "abcdefghijklmnopqrstuvwxyzABCDEFGHIJKLMNOPQRSTUVWXYZ0123456789"
-    ns = (1023, 1024, 1025, 1100) if tier == "quick" else (255, 256, 257, 1023, 1024, 1025, 1100, 2050, 4097, 70000)
+    ns = (1023, 1024, 1025, 1100) if tier == "quick" else (255, 256, 257, 1023, 1024, 1025, 1100, 2050, 4097, 16390)
     for n in ns:
         run = (alnum * (n // len(alnum) + 1))[:n]
         for term in (";", "<b>", " y", "=", "", "&amp;"):
@@ -227,7 +231,7 @@ def bulk_inputs(tier):
         out.append(("t&#" + "0" * n + "65;z", "-"))
         out.append(("t&#x" + "0" * n + "41z", "-"))
     # long names, values, comments, doctypes, many attributes (duplicate detection), long temp buffers
-    for n in ((300, 1030) if tier == "quick" else (255, 256, 300, 1030, 66000)):
+    for n in ((300, 1030) if tier == "quick" else (255, 256, 300, 1030, 4100)):
         out.append(("<" + "a" * n + " " + "b" * n + "=" + "c" * n + " " + "b" * n + "=d>t</" + "A" * n + ">", "-"))
         out.append(("<!--" + "-x" * n + "-->t<!DOCTYPE " + "h" * n + " PUBLIC '" + "p" * n + "' \"" + "s" * n + "\">", "-"))
         out.append(("</" + "s" * n + ">z</s" + "S" * 0 + ">", "RawData(Rawtext)"))
